@@ -537,7 +537,7 @@ def check_merges(repo: Repo, res: Result, interp: A.Interp, tails: set, final_di
         if e.kind == "setdefault":
             res.add("C06.R2", construct, True, "setdefault keeps what is already recorded for the key", where_, kind="structural")
         elif e.kind == "item-mutate":
-            ensured = all(d.factory is not None for d in e.dicts) or ("present", e.key_text) in facts or any(o is not e and o.kind in ("assign", "setdefault") and o.key_text == e.key_text and o.fi is e.fi for d in e.dicts for o in per_dict.get(d, []))
+            ensured = all(d.factory is not None for d in e.dicts) or ("present", e.key_text) in facts or all(any(o is not e and o.kind != "item-mutate" for o in per_dict.get(d, [])) for d in e.dicts)
             res.add("C06.R2", construct, ensured, "the entry of the key is extended in place" if ensured else f"`{norm(e.node, 60)}` raises KeyError for a new key (the dict is not a defaultdict and the entry is never created)", where_, kind="structural")
         elif e.kind in ("assign", "comp", "ctor"):
             only_site = all(len(per_dict.get(d, [])) == 1 for d in e.dicts)
@@ -545,8 +545,10 @@ def check_merges(repo: Repo, res: Result, interp: A.Interp, tails: set, final_di
                 res.add("C06.R2", construct, True, "the stored value is built from what is already recorded for the key", where_, kind="structural")
             elif ("absent", e.key_text) in facts or (("absent-or-empty", e.key_text) in facts):
                 res.add("C06.R2", construct, True, "the store creates the entry of a key that is not in the dict yet", where_, kind="structural")
-            elif e.key.uniq is not None and only_site:
-                res.add("C06.R2", construct, True, "the keys are the distinct keys of the dict / set being iterated: no two iterations store under the same key", where_, kind="structural")
+            elif e.key.uniq is not None and (only_site or fills_fresh_dict(e, per_dict)):
+                res.add("C06.R2", construct, True, "the keys are the distinct keys of the dict / set being iterated and the dict is empty before: no two stores go to the same key", where_, kind="structural")
+            elif e.key.uniq is not None:
+                res.undecide("C06.R2", construct, "the store uses the distinct keys of the collection being iterated, but the dict is also filled elsewhere and the order of the two is not recognised", where_)
             else:
                 what = "a dict comprehension keeps only the last entry per key" if e.kind == "comp" else "dict(pairs) keeps only the last pair per key" if e.kind == "ctor" else f"`{norm(e.node, 70)}` overwrites"
                 res.add("C06.R2", construct + (" [dict comprehension]" if e.kind == "comp" else ""), False, f"{what}: the key `{e.key_text or norm(e.node, 40)}` is many-to-one (an alias and its component name resolve to the same key; one component draws several arrows), so arrows recorded earlier under the same key are lost", where_, kind="structural")
@@ -560,6 +562,33 @@ def check_merges(repo: Repo, res: Result, interp: A.Interp, tails: set, final_di
     for d in final_dicts:
         if not per_dict.get(d):
             res.undecide("C06.R2", parse_key + "::returned relation", "no store into the returned dependencies dict is recognised", parse_where)
+
+
+def fills_fresh_dict(e: A.Event, per_dict: dict) -> bool:
+    """The store sits in a loop that comes textually before every other store into the same (locally created) dict."""
+    if e.fi is None or isinstance(e.node, ast.DictComp):
+        return False
+    from core.loader import ancestors
+
+    loop = None
+    for a in ancestors(e.node):
+        if a is e.fi.node:
+            break
+        if isinstance(a, (ast.For, ast.While)):
+            loop = a
+    if loop is None:
+        return False
+    end = getattr(loop, "end_lineno", None)
+    for d in e.dicts:
+        alloc = d.alloc
+        if alloc is None or not (getattr(alloc, "lineno", 10**9) < loop.lineno) or not any(x is e.fi.node for x in ancestors(alloc)):
+            return False
+        for o in per_dict.get(d, []):
+            if o is e:
+                continue
+            if o.fi is not e.fi or end is None or getattr(o.node, "lineno", 0) <= end:
+                return False
+    return True
 
 
 # -------------------------------------------------------------------------------------------------------------------- R5
